@@ -354,7 +354,8 @@ func (f *Failover) doBuild(
 		}
 
 		if f.config.FailedUpdateTTL > -1 {
-			writeErr := f.Errors.Write(ctx, key, err)
+			// Failure is cached for FailedUpdateTTL, ttl of the value in the context does not apply.
+			writeErr := f.Errors.Write(WithTTL(ctx, DefaultTTL, false), key, err)
 			if writeErr != nil && f.logError != nil {
 				f.logError(ctx, "failed to cache update failure",
 					"error", writeErr,
